@@ -237,3 +237,32 @@ m("c10-unlock-no-broadcast-reader", "src/rwlock.c",
         }
     }
     ABTI_cond_broadcast(p_local, &p_rwlock->cond);""", "C10.R3")
+# ---- C02
+m("c02-asm-swap-pops", "src/arch/fcontext/fcontext_x86_64_sysv_elf_gas.S",
+  """    popq  %r12  /* restrore R12 */
+    popq  %r13  /* restrore R13 */""",
+  """    popq  %r13  /* restrore R13 */
+    popq  %r12  /* restrore R12 */""", "C02.A2", nth=2)
+m("c02-publish-before-blocked", "src/ythread.c",
+  """    ABTD_atomic_release_store_int(&p_prev->thread.state,
+                                  ABT_THREAD_STATE_BLOCKED);
+    /* Release the lock. */
+    ABTD_spinlock_release(p_lock);""",
+  """    /* Release the lock. */
+    ABTD_spinlock_release(p_lock);
+    ABTD_atomic_release_store_int(&p_prev->thread.state,
+                                  ABT_THREAD_STATE_BLOCKED);""", "C02.R3")
+m("c02-arg-read-after-blocked", "src/ythread.c",
+  """    ABTI_ythread *p_prev = p_arg->p_prev;
+    ABTD_spinlock *p_lock = p_arg->p_lock;""",
+  """    ABTI_ythread *p_prev = p_arg->p_prev;
+#define p_lock (p_arg->p_lock)""", "C02.R3")
+m("c02-yield-push-before-switch", "src/include/abti_ythread.h",
+  """    if (kind == ABTI_YTHREAD_YIELD_KIND_USER) {
+        ABTI_ythread_switch_to_parent_internal(""",
+  """    if (kind == ABTI_YTHREAD_YIELD_KIND_USER) {
+        ABTI_pool_add_thread(&p_self->thread, ABT_POOL_CONTEXT_OP_THREAD_YIELD);
+        ABTI_ythread_switch_to_parent_internal(""", "C02.R2")
+m("c02-wrapper-swapped-ctx", "src/include/abtd_fcontext.h",
+  """    switch_fcontext(&p_new->ctx, &p_old->ctx);""",
+  """    switch_fcontext(&p_old->ctx, &p_new->ctx);""", "C02.R1")
